@@ -39,7 +39,17 @@ func (x *Exec) doCallVals(st *State, fr *Frame, c *ssa.CallCommon, fv Val, argv 
 	if x.fc != nil && x.fc.AtCalls != nil {
 		name := calleeName(c)
 		for i, ac := range x.fc.AtCalls[name] {
-			env := &specEnv{w: x.w, pkg: x.fc.Pkg, vars: x.entryEnv, st: st, heap: st.heap, old: x.initHeap}
+			vars := map[string]Val{}
+			for k, v := range x.entryEnv {
+				vars[k] = v
+			}
+			for j, a := range argv {
+				vars[fmt.Sprintf("$%d", j)] = a // $0, $1, ...: the arguments of the call
+			}
+			if c.IsInvoke() {
+				vars["$recv"] = fv
+			}
+			env := &specEnv{w: x.w, pkg: x.fc.Pkg, vars: vars, st: st, heap: st.heap, old: x.initHeap}
 			g, err := env.evalBool(ac.E)
 			if err != nil {
 				x.reject("contract of %s: atcall %s %q: %v", x.fc.Key, name, ac.Src, err)
@@ -401,6 +411,11 @@ func (x *Exec) classOfEntry(st *State, fc *FuncContract, m *ModEntry, env *specE
 
 func (x *Exec) havocEntry(st *State, fc *FuncContract, m *ModEntry, env *specEnv) {
 	class, ref, idx := x.classOfEntry(st, fc, m, env)
+	if strings.HasPrefix(class, "gg:") && x.absRecv != nil {
+		if ab, ok := x.w.cs.Abstractions[class[3:]]; ok && ab.Type == x.absType {
+			return // defined by the abstraction over the receiver's state: not a separate location
+		}
+	}
 	srt := x.w.classes[class]
 	switch {
 	case ref == "" && idx == "":
